@@ -137,16 +137,121 @@ Ltac unf :=
     do_remove_publisher, do_static_ready, do_static_not_ready, do_timer, do_close, execute_remove_publisher,
     set_not_available, set_available, set_online, set_offline, call_unavailable, hook_open, hook_close, panic,
     handler_start, handler_stop, ss_start, ss_schedule_close, ss_stop, pub_start, pub_schedule_close, pub_stop,
-    add_reader_post, fail_on_hold, whenM, bindM, modify, emit, ret, timer_armed, disarm, cur_stream.
+    add_reader_post, bump_on_demand, fail_on_hold, whenM, bindM, modify, emit, ret, timer_armed, disarm, cur_stream.
 
+(* leaves whose handler is stuck on list conditions in the middle (cbn keeps the rest folded) *)
 Ltac fin_live H := enum H; unf; leaf.
 
+(* leaves whose handler is straight-line on an explicit state: kernel-style lazy evaluation *)
+Ltac red_goal :=
+  lazy beta iota zeta delta [fst snd
+     step_gen do_describe do_add_reader do_remove_reader do_add_publisher attach_publisher
+     do_remove_publisher do_static_ready do_static_not_ready do_timer do_close execute_remove_publisher
+     set_not_available set_available set_online set_offline call_unavailable hook_open hook_close panic
+     handler_start handler_stop ss_start ss_schedule_close ss_stop pub_start pub_schedule_close pub_stop
+     bump_on_demand fail_on_hold whenM bindM modify emit ret timer_armed disarm cur_stream
+     set_closed set_source set_stream set_nextgen set_readers set_dhold set_rhold set_ssState set_ssReadyT
+     set_ssCloseT set_ssRunning set_instReady set_pubState set_pubReadyT set_pubCloseT set_hUnDemand
+     set_hUnavail set_hOffline
+     s_conf s_closed s_source s_stream s_nextgen s_readers s_dhold s_rhold s_ssState s_ssReadyT s_ssCloseT
+     s_ssRunning s_instReady s_pubState s_pubReadyT s_pubCloseT s_hUnDemand s_hUnavail s_hOffline
+     PathSM.c_static PathSM.c_sod PathSM.c_override PathSM.c_maxr PathSM.c_hAvail PathSM.c_hUnavail
+     PathSM.c_hOnline PathSM.c_hOffline PathSM.c_hDemand PathSM.c_hUnDemand
+     od_static od_pub ods_eqb andb orb negb
+     inv_b core_b hold_b no_holds_b closed_b conf_ok is_some isnil impb Bool.eqb].
+(* case split on the symbolic conditions of the handlers (list membership, id equality, reader limit) *)
+Ltac split_atoms :=
+  repeat (match goal with
+          | |- context [mem ?r ?l] => destruct (mem r l) eqn:?
+          | |- context [remove_z ?r ?l] => destruct (remove_z r l) eqn:?
+          | |- context [Z.eqb ?a ?b] => destruct (Z.eqb a b) eqn:?
+          | |- context [Z.leb ?a ?b] => destruct (Z.leb a b) eqn:?
+          end; red_goal).
+Ltac leaf' := red_goal; split_atoms; try reflexivity.
+Ltac fin_live' H := enum H; leaf'.
+
 Lemma fin_remove_reader fx s r : inv_b fx s = true -> inv_b fx (fst (step_gen fx s (RemoveReader r))) = true.
-Proof. intros H. start s. destruct cl; [exact H|]. Time fin_live H. Time Qed.
+Proof. intros H. start s. destruct cl; [exact H|]. fin_live H. Qed.
 
 Lemma fin_describe fx s q : inv_b fx s = true -> inv_b fx (fst (step_gen fx s (Describe q))) = true.
-Proof. intros H. start s. destruct cl; [exact H|]. Time fin_live H. Time Qed.
+Proof. intros H. start s. destruct cl; [exact H|]. fin_live H. Qed.
 
 Lemma fin_add_reader fx s q r : inv_b fx s = true -> inv_b fx (fst (step_gen fx s (AddReader q r))) = true.
-Proof. intros H. start s. destruct cl; [exact H|]. Time fin_live H. Time Qed.
+Proof. intros H. start s. destruct cl; [exact H|]. fin_live H. Qed.
+
+Lemma fin_remove_publisher fx s p : inv_b fx s = true -> inv_b fx (fst (step_gen fx s (RemovePublisher p))) = true.
+Proof. intros H. start s. destruct cl; [exact H|]. fin_live' H. Qed.
+
+Lemma fin_static_not_ready fx s : inv_b fx s = true -> inv_b fx (fst (step_gen fx s StaticNotReady)) = true.
+Proof. intros H. start s. destruct cl; [exact H|]. fin_live' H. Qed.
+
+Lemma fin_timer fx s t : inv_b fx s = true -> inv_b fx (fst (step_gen fx s (TimerFire t))) = true.
+Proof. intros H. start s. destruct cl; [exact H|]. destruct t; fin_live' H. Qed.
+
+Lemma fin_close fx s : inv_b fx s = true -> inv_b fx (fst (step_gen fx s Close)) = true.
+Proof. intros H. start s. destruct cl; [exact H|]. fin_live' H. Qed.
+
+(* ---- consumeOnHoldRequests: effect on the state ------------------------------------------------ *)
+Lemma arp_cases q r s :
+  fst (add_reader_post q r s) = s \/
+  fst (add_reader_post q r s) = bump_on_demand (set_readers (s_readers s ++ [r]) s).
+Proof.
+  unfold add_reader_post. destruct (mem r (s_readers s)); [left; reflexivity|].
+  destruct (negb (c_maxr (s_conf s) =? 0) && (c_maxr (s_conf s) <=? Z.of_nat (length (s_readers s))));
+    [left|right]; reflexivity.
+Qed.
+
+Lemma bump_set_readers x s : bump_on_demand (set_readers x s) = set_readers x (bump_on_demand s).
+Proof.
+  destruct s as [cf ? ? ? ? ? ? ? sst ? ? ? ? pst ? ? ? ? ?]. unfold bump_on_demand. cbn.
+  destruct (od_static cf); [destruct sst; reflexivity|]. destruct (od_pub cf); [destruct pst; reflexivity|reflexivity].
+Qed.
+Lemma bump_idem s : bump_on_demand (bump_on_demand s) = bump_on_demand s.
+Proof.
+  destruct s as [cf ? ? ? ? ? ? ? sst ? ? ? ? pst ? ? ? ? ?]. unfold bump_on_demand. cbn.
+  destruct (od_static cf) eqn:E1; [destruct sst; cbn; rewrite ?E1; reflexivity|].
+  destruct (od_pub cf) eqn:E2; [destruct pst; cbn; rewrite ?E1, ?E2; reflexivity|cbn; rewrite E1, E2; reflexivity].
+Qed.
+Lemma set_readers_twice a b s : set_readers a (set_readers b s) = set_readers a s.
+Proof. destruct s; reflexivity. Qed.
+
+Lemma arps_cases l : forall s,
+  fst (add_readers_post l s) = s \/
+  exists rd', rd' <> [] /\ fst (add_readers_post l s) = bump_on_demand (set_readers rd' s).
+Proof.
+  induction l as [|[q r] l IH]; intros s; [left; reflexivity|].
+  cbn [add_readers_post]. rewrite fst_bind.
+  destruct (arp_cases q r s) as [E|E]; rewrite E.
+  - apply IH.
+  - right. destruct (IH (bump_on_demand (set_readers (s_readers s ++ [r]) s))) as [E2|(rd' & Hne & E2)]; rewrite E2.
+    + exists (s_readers s ++ [r]). split; [|reflexivity]. intros Hx. apply app_eq_nil in Hx. destruct Hx; discriminate.
+    + exists rd'. split; [exact Hne|]. rewrite bump_set_readers, bump_idem, <- bump_set_readers, set_readers_twice. reflexivity.
+Qed.
+
+Lemma consume_cases s :
+  fst (consume_on_hold s) = set_rhold [] (set_dhold [] s) \/
+  exists rd', rd' <> [] /\
+    fst (consume_on_hold s) = set_rhold [] (bump_on_demand (set_readers rd' (set_dhold [] s))).
+Proof.
+  unfold consume_on_hold. rewrite !fst_bind. cbn [fst modify].
+  destruct (arps_cases (s_rhold s) (set_dhold [] s)) as [E|(rd' & Hne & E)]; rewrite E.
+  - left; reflexivity.
+  - right. exists rd'. split; [exact Hne|reflexivity].
+Qed.
+
+(* the part of doAddPublisher / doSourceStaticSetReady before consumeOnHoldRequests *)
+Definition pre_attach (p : Z) : M :=
+  set_available ;; modify (set_source (Some p)) ;;
+  whenM (fun s => od_pub (s_conf s) && negb (ods_eqb (s_pubState s) OdInitial))
+    (modify (set_pubReadyT false) ;; pub_schedule_close).
+Definition pre_static_ready : M :=
+  set_available ;;
+  whenM (fun s => od_static (s_conf s)) (modify (set_ssReadyT false) ;; ss_schedule_close).
+
+Lemma fst_attach q p s : fst (attach_publisher q p s) = fst (consume_on_hold (fst (pre_attach p s))).
+Proof. unfold attach_publisher, pre_attach. rewrite !fst_bind. reflexivity. Qed.
+
+Arguments consume_on_hold : simpl never.
+Arguments pre_attach : simpl never.
+Arguments pre_static_ready : simpl never.
 
